@@ -454,7 +454,7 @@ impl C04 {
             }
             (n, e)
         } else {
-            let n = 4 + rng.usize_below(2);
+            let n = 4 + rng.usize_below(if env.tier == Tier::Thorough { 4 } else { 2 });
             let mut e = vec![];
             let shape = rng.below(5);
             let mut perm: Vec<usize> = (0..n).collect();
